@@ -1978,7 +1978,7 @@ def methodcall_reply_values_are_narrowed(repo, rep, ps, conn):
         raise AnalysisError('parse_methodresponse: children not found (%s)'
                             % sorted(shapes))
     # the statement after which a local holds the METHODRESPONSE children:
-    # the first `x = x[2]` that follows the test of the element name
+    # the first `x = y[2]` that follows the test of the element name
     body = f.body
     at = var = None
     seen_test = False
@@ -1989,7 +1989,7 @@ def methodcall_reply_values_are_narrowed(repo, rep, ps, conn):
         elif seen_test and isinstance(st, ast.Assign) and \
                 isinstance(st.targets[0], ast.Name) and \
                 isinstance(st.value, ast.Subscript) and \
-                norm(st.value.value) == st.targets[0].id and \
+                isinstance(st.value.value, ast.Name) and \
                 norm(st.value.slice) == '2':
             at, var = i, st.targets[0].id
             break
@@ -2123,80 +2123,90 @@ def recursion_depth_is_converted(repo, rep, rid, files):
                     todo.append(t)
         graph[f.fq] = edges
         order.append(f.fq)
-    # strongly connected components (iterative Tarjan)
-    index, low, onst, stack, comp = {}, {}, set(), [], {}
-    counter = [0]
-    for root in order:
-        if root in index:
-            continue
-        work = [(root, iter([t for t, _p in graph[root]]))]
-        index[root] = low[root] = counter[0]
-        counter[0] += 1
-        stack.append(root)
-        onst.add(root)
-        while work:
-            v, it = work[-1]
-            adv = False
-            for w in it:
-                if w not in index:
-                    index[w] = low[w] = counter[0]
-                    counter[0] += 1
-                    stack.append(w)
-                    onst.add(w)
-                    work.append((w, iter([t for t, _p in graph[w]])))
-                    adv = True
-                    break
-                if w in onst:
-                    low[v] = min(low[v], index[w])
-            if adv:
+    def cycles_of(adj, roots):
+        """nodes on a cycle of the graph `adj` (iterative Tarjan)"""
+        index, low, onst, stack, comp = {}, {}, set(), [], {}
+        counter = [0]
+        for root in roots:
+            if root in index:
                 continue
-            work.pop()
-            if work:
-                u = work[-1][0]
-                low[u] = min(low[u], low[v])
-            if low[v] == index[v]:
-                members = []
-                while True:
-                    w = stack.pop()
-                    onst.discard(w)
-                    members.append(w)
-                    if w == v:
+            work = [(root, iter(adj.get(root, ())))]
+            index[root] = low[root] = counter[0]
+            counter[0] += 1
+            stack.append(root)
+            onst.add(root)
+            while work:
+                v, it = work[-1]
+                adv = False
+                for w in it:
+                    if w not in index:
+                        index[w] = low[w] = counter[0]
+                        counter[0] += 1
+                        stack.append(w)
+                        onst.add(w)
+                        work.append((w, iter(adj.get(w, ()))))
+                        adv = True
                         break
-                for w in members:
-                    comp[w] = members
-    rec_nodes = {v for v in graph if len(comp[v]) > 1 or
-                 any(t == v for t, _p in graph[v])}
+                    if w in onst:
+                        low[v] = min(low[v], index[w])
+                if adv:
+                    continue
+                work.pop()
+                if work:
+                    u = work[-1][0]
+                    low[u] = min(low[u], low[v])
+                if low[v] == index[v]:
+                    members = []
+                    while True:
+                        w = stack.pop()
+                        onst.discard(w)
+                        members.append(w)
+                        if w == v:
+                            break
+                    for w in members:
+                        comp[w] = members
+        return {v for v in comp if len(comp[v]) > 1 or v in adj.get(v, ())}
+    full = {v: [t for t, _p in es] for v, es in graph.items()}
+    all_rec = cycles_of(full, order)
     r.notes.append('%d functions below TupleParser.parse_cim, %d of them on '
                    'a call cycle (e.g. %s)'
-                   % (len(graph), len(rec_nodes),
+                   % (len(graph), len(all_rec),
                       ', '.join(sorted(funcs[v].qualname
-                                       for v in rec_nodes)[:4])))
+                                       for v in all_rec)[:4])))
     if len(graph) < 40:
         raise AnalysisError('%s: only %d functions reached from parse_cim'
                             % (rid, len(graph)))
-    memo = {}
+    # A call made inside a converting try is a frame that stays below the
+    # recursion it starts: whatever is reached only through such a call is
+    # covered by the outermost activation of that frame.  So the question
+    # is whether a cycle can be reached from the entry through calls that
+    # are NOT protected.
+    unprot = {v: [t for t, p_ in es if not p_] for v, es in graph.items()}
+    reach, todo = {}, [(entry.fq, None)]
+    while todo:
+        v, par = todo.pop()
+        if v in reach:
+            continue
+        reach[v] = par
+        for t in unprot.get(v, ()):
+            todo.append((t, v))
+    sub = {v: [t for t in unprot[v] if t in reach] for v in reach}
+    rec_nodes = cycles_of(sub, [entry.fq])
 
-    def leaks(v, seen=(), first=False):
-        """an unprotected chain of calls leads from v into a cycle.  (The
-        activation of the entry that the outside caller creates is the
-        outermost parser frame whatever cycles the entry is on: a handler
-        there is above all recursion.)"""
-        if v in rec_nodes and not first:
-            return [v]
-        if v in memo:
-            return memo[v]
-        if v in seen:
+    def leaks(_v, first=True):
+        if not rec_nodes:
             return None
-        out = None
-        for t, prot in graph[v]:
-            if prot:
-                continue
-            sub = leaks(t, seen + (v,))
-            if sub:
-                out = [v] + sub
-                break
-        memo[v] = out
-        return out
+        # shortest-known chain from the entry to a node on such a cycle
+        best = None
+        for v in sorted(rec_nodes):
+            chain, cur = [], v
+            while cur is not None:
+                chain.append(cur)
+                cur = reach[cur]
+            chain.reverse()
+            if best is None or len(chain) < len(best):
+                best = chain
+        return best
     nsites = 0
     for rel in files:
         for f in repo.module(rel).all_funcs():
